@@ -12,19 +12,16 @@ import Sidetree.Composer
 namespace Sidetree.Props.C19
 open Sidetree Sidetree.JsonPatch Sidetree.JsonPatch.Lib
 
-/-- the walk along `pt` passes through the node the walk along `ft` ends at -/
-def tokensBelow (ft pt : List String) : Bool :=
-  decide (ft.length ≤ pt.length) && (ft.zip pt).all fun ab => sameDecoded ab.1 ab.2
-
 theorem int_eq_of_toNat {i j : Int} (hi : 0 ≤ i) (hj : 0 ≤ j) (h : i.toNat = j.toNat) : i = j := by omega
 
 /-- **resolution is what matters**: if the nodes visited along `ft` are an initial segment of the
-    nodes visited along `pt`, the tokens agree pairwise the way the library resolves them -/
+    nodes visited along `pt`, the composer's walk along `ft` (`belowIn`) goes all the way -/
 theorem below_of_prefix : ∀ (ft pt : List String) (d : Json) (src dst : List Step),
     resolveSteps d ft = some src → resolveSteps d pt = some dst → src.isPrefixOf dst = true →
-    tokensBelow ft pt = true
-  | [], pt, _, _, _, _, _, _ => by simp [tokensBelow]
+    ft.length ≤ pt.length ∧ belowIn (some d) (ft.zip pt) = true
+  | [], pt, _, _, _, _, _, _ => by simp [belowIn]
   | a :: as, [], d, src, dst, hs, hd, hp => by
+    exfalso
     simp only [resolveSteps, Option.some.injEq] at hd
     subst hd
     cases d with
@@ -80,10 +77,9 @@ theorem below_of_prefix : ∀ (ft pt : List String) (d : Json) (src dst : List S
               rw [hl] at hl'
               cases hl'
               have ih := below_of_prefix as bs n ss ss' hr hr' hp'
-              simp only [tokensBelow, Bool.and_eq_true, decide_eq_true_eq] at ih ⊢
               refine ⟨by simp; exact ih.1, ?_⟩
-              simp only [List.zip_cons_cons, List.all_cons, Bool.and_eq_true]
-              exact ⟨by simp [sameDecoded], ih.2⟩
+              simp only [List.zip_cons_cons, belowIn, hl, Bool.and_eq_true, beq_self_eq_true, true_and]
+              exact ih.2
     | arr xs =>
       simp only [resolveSteps] at hs hd
       cases ha : atoi? a with
@@ -121,10 +117,10 @@ theorem below_of_prefix : ∀ (ft pt : List String) (d : Json) (src dst : List S
                       rw [hx] at hx'
                       cases hx'
                       have ih := below_of_prefix as bs n ss ss' hr hr' hp'
-                      simp only [tokensBelow, Bool.and_eq_true, decide_eq_true_eq] at ih ⊢
                       refine ⟨by simp; exact ih.1, ?_⟩
-                      simp only [List.zip_cons_cons, List.all_cons, Bool.and_eq_true]
-                      exact ⟨by simp [sameDecoded, ha, hb], ih.2⟩
+                      simp only [List.zip_cons_cons, belowIn, ha, hb, hx, Bool.and_eq_true, beq_self_eq_true, true_and,
+                        decide_eq_true_eq]
+                      exact ⟨hi, ih.2⟩
                 · simp [hj] at hd
         · simp [hi] at hs
     | null => simp [resolveSteps] at hs
@@ -165,13 +161,20 @@ theorem map_dropLast_append_last (rest : List (List Char)) (h : rest ≠ []) :
       simp only [List.dropLast_cons₂, List.map_cons, List.cons_append, List.getLast?_cons_cons] at this ⊢
       rw [this]
 
+theorem zip_map_dropLast (restf restp : List (List Char)) (h : restf.length ≤ restp.dropLast.length) :
+    (restf.map decodeKey).zip (restp.map decodeKey) = (restf.map decodeKey).zip (restp.dropLast.map decodeKey) := by
+  have : restp.dropLast.map decodeKey = (restp.map decodeKey).dropLast := by
+    simp [List.map_dropLast]
+  rw [this]
+  exact zip_dropLast _ _ (by simpa using h)
+
 /-- **the composer's guard excludes the cycle**: whenever a `copy` would link a node into its own
-    subtree (the only way the patch library makes a document contain itself), the pointers
-    satisfy `isBelow`, so `targetsOwnSource` is true and the composer refuses the operation
-    before the library sees it. -/
+    subtree (the only way the patch library makes a document contain itself), the composer's walk
+    of the document along `from` succeeds, so `targetsOwnSource` is true and the composer refuses
+    the operation before the library sees it. -/
 theorem guard_excludes_cycle (doc : Json) (frm path : String) (fparts parts : List (List Char)) (fkey key : String)
     (hf : splitPointer frm = some (fparts, fkey)) (hp : splitPointer path = some (parts, key))
-    (hc : copyMakesCycle doc fparts fkey parts = true) : isBelow path frm = true := by
+    (hc : copyMakesCycle doc fparts fkey parts = true) : isBelow path frm doc = true := by
   obtain ⟨x, restf, hsf, hnf, rfl, rfl⟩ := splitPointer_inv frm fparts fkey hf
   obtain ⟨y, restp, hsp, hnp, rfl, rfl⟩ := splitPointer_inv path parts key hp
   unfold copyMakesCycle at hc
@@ -184,9 +187,8 @@ theorem guard_excludes_cycle (doc : Json) (frm path : String) (fparts parts : Li
     | some dst =>
       rw [hs, hd] at hc
       simp only at hc
-      have hb := below_of_prefix _ _ doc src dst hs hd hc
-      simp only [tokensBelow, Bool.and_eq_true, decide_eq_true_eq, List.length_map] at hb
-      obtain ⟨hlen, hall⟩ := hb
+      obtain ⟨hlen, hall⟩ := below_of_prefix _ _ doc src dst hs hd hc
+      simp only [List.length_map] at hlen
       have hplen : restp.dropLast.length + 1 = restp.length := by
         cases restp with
         | nil => exact absurd rfl hnp
@@ -195,14 +197,8 @@ theorem guard_excludes_cycle (doc : Json) (frm path : String) (fparts parts : Li
       simp only [hsf, hsp, List.length_cons, List.drop_succ_cons, List.drop_zero]
       have hlt : ¬ (restp.length + 1 ≤ restf.length + 1) := by omega
       simp only [hlt, if_false]
-      rw [zip_dropLast restf restp hlen]
-      rw [List.all_eq_true] at hall ⊢
-      intro ab hab
-      have hm : (decodeKey ab.1, decodeKey ab.2) ∈ (restf.map decodeKey).zip (restp.dropLast.map decodeKey) := by
-        rw [List.zip_map]
-        exact List.mem_map.mpr ⟨ab, hab, rfl⟩
-      have := hall _ hm
-      simpa [sameToken] using this
+      rw [zip_map_dropLast restf restp hlen]
+      exact hall
 
 /-! ### the only other unrecoverable outcome is an allocation the caller asked for -/
 
@@ -498,7 +494,7 @@ theorem guardString_of_eq (op : Json) (k s : String) (hs : s ≠ "unknown") (h :
 theorem applyGuarded_blowup (doc op : Json) (h : applyGuarded doc op = .blowup) :
     ∃ parts key, splitPointer (opString op "path") = some (parts, key) ∧ HugeIndex key := by
   unfold applyGuarded at h
-  by_cases hg : targetsOwnSource op = true
+  by_cases hg : targetsOwnSource op doc = true
   · rw [if_pos hg] at h; cases h
   · rw [if_neg hg] at h
     have hop : applyOp doc op = .blowup := by
@@ -530,16 +526,122 @@ theorem applyAll_blowup : ∀ (ops : List Json) (doc : Json), applyAll doc ops =
     · obtain ⟨op, hm, r⟩ := applyAll_blowup rest d1 hb
       exact ⟨op, List.mem_cons_of_mem _ hm, r⟩
 
-/-- the guard refuses the reported crash inputs (validated by the old string comparison) -/
-example : targetsOwnSource (.obj [("op", .str "copy"), ("from", .str "/arr/0"), ("path", .str "/arr/+0/x")]) = true ∧
-    targetsOwnSource (.obj [("op", .str "copy"), ("from", .str "/~"), ("path", .str "/~0/x")]) = true ∧
-    targetsOwnSource (.obj [("op", .str "copy"), ("from", .str "/a"), ("path", .str "x/a/b")]) = true ∧
-    targetsOwnSource (.obj [("op", .str "copy"), ("from", .str "/a"), ("path", .str "/ab/c")]) = false := by decide
+/-- **the guard refuses nothing but children of the source** (D45): when the walk succeeds and
+    `from` resolves, the first tokens of `path` resolve to the very same nodes -/
+theorem guard_refuses_only_children : ∀ (ft pt : List String) (d : Json) (src : List Step),
+    ft.length ≤ pt.length → belowIn (some d) (ft.zip pt) = true → resolveSteps d ft = some src →
+    resolveSteps d (pt.take ft.length) = some src
+  | [], pt, d, src, _, _, hs => by
+    cases d <;> simpa [resolveSteps] using hs
+  | a :: as, [], _, _, hl, _, _ => by simp at hl
+  | a :: as, b :: bs, d, src, hl, hb, hs => by
+    simp only [List.length_cons, Nat.add_le_add_iff_right] at hl
+    cases d with
+    | obj kvs =>
+      simp only [List.zip_cons_cons, belowIn, Bool.and_eq_true, beq_iff_eq] at hb
+      obtain ⟨hab, hb'⟩ := hb
+      subst hab
+      simp only [resolveSteps] at hs
+      cases hlk : Json.lookup a kvs with
+      | none => simp [hlk] at hs
+      | some n =>
+        cases hr : resolveSteps n as with
+        | none => simp [hlk, hr] at hs
+        | some ss =>
+          simp only [hlk, hr, Option.bind_some, Option.map_some, Option.some.injEq] at hs
+          subst hs
+          rw [hlk] at hb'
+          have ih := guard_refuses_only_children as bs n ss hl hb' hr
+          simp [List.take_succ_cons, resolveSteps, hlk, ih]
+    | arr xs =>
+      simp only [List.zip_cons_cons, belowIn] at hb
+      cases ha : atoi? a with
+      | none => simp [ha] at hb
+      | some i =>
+        cases hbb : atoi? b with
+        | none => simp [ha, hbb] at hb
+        | some j =>
+          simp only [ha, hbb, Bool.and_eq_true, beq_iff_eq, decide_eq_true_eq] at hb
+          obtain ⟨⟨hij, hi⟩, hb'⟩ := hb
+          subst hij
+          simp only [resolveSteps, ha, hi, and_self, if_true] at hs
+          cases hx : xs[i.toNat]? with
+          | none => simp [hx] at hs
+          | some n =>
+            cases hr : resolveSteps n as with
+            | none => simp [hx, hr] at hs
+            | some ss =>
+              simp only [hx, hr, Option.bind_some, Option.map_some, Option.some.injEq] at hs
+              subst hs
+              rw [hx] at hb'
+              have ih := guard_refuses_only_children as bs n ss hl hb' hr
+              simp only [List.length_cons, List.take_succ_cons, resolveSteps, hbb, hi, and_self, if_true, hx, Option.bind_some, ih,
+                Option.map_some]
+    | null => simp [belowIn] at hb
+    | bool _ => simp [belowIn] at hb
+    | num _ => simp [belowIn] at hb
+    | str _ => simp [belowIn] at hb
+
+/-- the guard refuses the reported crash inputs (validated by the old string comparison) … -/
+example :
+    targetsOwnSource (.obj [("op", .str "copy"), ("from", .str "/arr/0"), ("path", .str "/arr/+0/x")])
+      (.obj [("arr", .arr [.obj [("k", .null)]])]) = true ∧
+    targetsOwnSource (.obj [("op", .str "copy"), ("from", .str "/~"), ("path", .str "/~0/x")]) (.obj [("~", .obj [])]) = true ∧
+    targetsOwnSource (.obj [("op", .str "copy"), ("from", .str "/a"), ("path", .str "x/a/b")]) (.obj [("a", .obj [])]) = true ∧
+    targetsOwnSource (.obj [("op", .str "copy"), ("from", .str "/a"), ("path", .str "/ab/c")]) (.obj [("a", .obj []), ("ab", .obj [])]) = false := by
+  decide
+
+/-- … and no longer a copy between the members "1" and "01" of an object (D45), while "0" and "00"
+    still name one element of a list -/
+example :
+    targetsOwnSource (.obj [("op", .str "copy"), ("from", .str "/a/1"), ("path", .str "/a/01/x")])
+      (.obj [("a", .obj [("1", .str "v"), ("01", .obj [])])]) = false ∧
+    targetsOwnSource (.obj [("op", .str "copy"), ("from", .str "/a/0"), ("path", .str "/a/00/x")])
+      (.obj [("a", .arr [.obj [("k", .null)]])]) = true := by
+  decide
 
 /-- without the guard the library model does reach the hazard on such an input -/
 example : (match applyOp (.obj [("arr", .arr [.obj [("k", .null)]])])
     (.obj [("op", .str "copy"), ("from", .str "/arr/0"), ("path", .str "/arr/+0/x")]) with
     | .blowup => true
     | _ => false) = true := by decide
+
+/-! ### the copy chain (known finding D47)
+
+Memory is not part of the model, so "does not exhaust it" is not a statement here. What the model
+can exhibit is the growth law that makes the finding: a concrete witness, evaluated by the kernel —
+a test of the model on fourteen inputs, not a theorem about every length. -/
+
+mutual
+/-- scalars in a value -/
+def leaves : Json → Nat
+  | .arr xs => leavesList xs
+  | .obj kvs => leavesMembers kvs
+  | _ => 1
+def leavesList : List Json → Nat
+  | [] => 0
+  | x :: xs => leaves x + leavesList xs
+def leavesMembers : List (String × Json) → Nat
+  | [] => 0
+  | (_, x) :: xs => leaves x + leavesMembers xs
+end
+
+/-- two one-element lists, then `n` copies of the one to the end of the other, alternating -/
+def copyChain (n : Nat) : List Json :=
+  [.obj [("op", .str "add"), ("path", .str "/fa"), ("value", .arr [.str "x"])],
+   .obj [("op", .str "add"), ("path", .str "/fb"), ("value", .arr [.str "x"])]] ++
+  (List.range n).map fun k =>
+    if k % 2 = 0 then .obj [("op", .str "copy"), ("from", .str "/fa"), ("path", .str "/fb/-")]
+    else .obj [("op", .str "copy"), ("from", .str "/fb"), ("path", .str "/fa/-")]
+
+def leavesAfter (n : Nat) : Nat :=
+  match applyAll (.obj []) (copyChain n) with
+  | .ok d => leaves d
+  | _ => 0
+
+/-- behind the guard every one of these operations is applied, and the document holds
+    Fibonacci-many scalars: × 1.618 per 40 bytes of patch -/
+example : (List.range 14).map leavesAfter = [2, 3, 5, 8, 13, 21, 34, 55, 89, 144, 233, 377, 610, 987] := by
+  decide +kernel
 
 end Sidetree.Props.C19
